@@ -773,8 +773,8 @@ class Interp:
         self.labels.add("ccs:unknown" if was_unknown else "ccs:known")
         if t.uout:
             self.tags.add(KF_SLICE_UOUT)  # compute_chunk_sizes slices a map_blocks of the collection
-        if KF_ZERO_CHUNK_MASK in t.tags:
-            self.tags.add(KF_ZERO_CHUNK_MASK)
+        if KF_ZERO_CHUNK_MASK in t.tags or (has_zero_chunk(t.coll) and t.how != "compute_chunk_sizes"):
+            self.tags.add(KF_ZERO_CHUNK_MASK)  # anything built on top of zero-width blocks (u > 0, u + 1, u[mask] = v)
         others = [e for _, e in self.live() if e is not t and t.eid in e.anc]
         if t.computed:
             self.labels.add("mutation-after-compute")
@@ -784,6 +784,7 @@ class Interp:
             self.tags |= t.tags
             return [(util.exc_bucket("compute_chunk_sizes-raises", e), util.exc_detail(e))]
         t.nmut += 1
+        t.how = "compute_chunk_sizes"
         if others:
             self.labels.add("derived-before-mutation")
             self.nontrivial = True
@@ -890,6 +891,7 @@ class Interp:
         # --- success on both sides
         t.mirror = m2
         t.nmut += 1
+        t.how = "setitem"
         old_weight = t.weight
         for w in kdeps + vdeps:
             if w is not t:
@@ -1031,6 +1033,7 @@ class Interp:
             return [(f"invalid-ufunc-out-accepted|{fn}|{type(np_exc).__name__}", f"NumPy raises {np_exc!r}; dask computed {_short(got)}")]
         t.mirror = m2
         t.nmut += 1
+        t.how = "ufunc_out"
         t.uout = True
         t.weight = 1 + sum(w.weight for w in deps) + (t.weight if wh is not None else 0)
         t.tags |= self.tags | {x for w in deps for x in w.tags}
@@ -1590,9 +1593,12 @@ def gen_ccs(D_, it):
     if _steer(KF_SLICE_UOUT) and any(it.pool[c].uout for c in cands):
         it.excluded.append(KF_SLICE_UOUT)
         cands = [c for c in cands if not it.pool[c].uout]
-    if _steer(KF_ZERO_CHUNK_MASK) and any(KF_ZERO_CHUNK_MASK in it.pool[c].tags for c in cands):
+    def drift(e):
+        return KF_ZERO_CHUNK_MASK in e.tags or (has_zero_chunk(e.coll) and e.how != "compute_chunk_sizes")
+
+    if _steer(KF_ZERO_CHUNK_MASK) and any(drift(it.pool[c]) for c in cands):
         it.excluded.append(KF_ZERO_CHUNK_MASK)
-        cands = [c for c in cands if KF_ZERO_CHUNK_MASK not in it.pool[c].tags]
+        cands = [c for c in cands if not drift(it.pool[c])]
     unk = [c for c in cands if it.pool[c].unknown]
     if not cands:
         return None
@@ -1982,7 +1988,7 @@ REGION_DOC = {
     KF_LEADING_ONE: "setitem with a value that has more dimensions than the selection (extra leading unit dimensions)",
     KF_WHERE_0D: "ufunc(..., out=v, where=mask) on a 0-d v",
     KF_MASKED_0D: "x[...] = np.ma.masked on a 0-d x",
-    KF_ZERO_CHUNK_MASK: "optimisation changes the block structure of collections with a zero-width block next to other blocks (typical after compute_chunk_sizes): compute_chunk_sizes after a dask-mask assignment / v+w on them, or v[v>k] on them, raises",
+    KF_ZERO_CHUNK_MASK: "optimisation changes the block structure of collections with a zero-width block next to other blocks (typical after compute_chunk_sizes): compute_chunk_sizes of anything built on them (u > 0, u + w, u[mask] = v), or u[u > k], raises",
     KF_NEG_ZERO_CHUNK: "negative-step slice of a collection whose chunks contain a zero-width block next to other blocks (typical after compute_chunk_sizes)",
     KF_OUT_DTYPE: "ufunc(..., out=v) whose natural result dtype differs from v's dtype",
     KF_SLICE_UOUT: "a basic index / boolean mask (or compute_chunk_sizes, which slices internally) applied to a collection whose expression contains an ufunc out= result",
